@@ -15,7 +15,7 @@ def one(sid):
         also = [c for c in json.load(open(os.path.join(HERE, "seeded", sid, "meta.json"))).get("also", []) if re.fullmatch(r"C\d\d", str(c))]
     except Exception:
         also = []
-    chks = [prop] + [c for c in EXTRA.get(sid, []) + (also if ("-r6" in sid or "-r7" in sid) else []) if c != prop]
+    chks = [prop] + [c for c in EXTRA.get(sid, []) + (also if any(t in sid for t in ("-r6", "-r7", "-r8")) else []) if c != prop]
     for chk in dict.fromkeys(chks):
         p = subprocess.run(["tools/runmut.sh", "seeded/%s/patch.diff" % sid, chk], cwd=HERE, stdout=subprocess.PIPE,
                            stderr=subprocess.STDOUT, text=True, timeout=3000)
